@@ -314,6 +314,24 @@ def check_tree(ctx, tr, rng, k, quick):
             else:
                 if hasattr(w, 'raised_kind') and exc is None:
                     ctx.disagree('an exception raised by on_match/on_skip/on_error is swallowed', wit)
+            if kind in ('vdir', 'vfile'):
+                # the same validation hook kills and then raises: apart from the error / skip routing of that very entry,
+                # no further file or directory is looked at
+                ctx.count('raising_hook_runs')
+                w2 = fresh(root, pat, excl, flags)
+                begin(w2)
+                w2.raise_at, w2.raise_in, w2.kill_at = kpt, kind, kpt
+                try:
+                    list(w2.imatch())
+                except Boom:
+                    pass
+                if hasattr(w2, 'raised_kind') and getattr(w2, 'kill_file', None) == w2.raised_file:
+                    cut = next(i for i, e in enumerate(w2.log) if e == (kind, w2.raised_file)) if (kind, w2.raised_file) in w2.log else None
+                    later = [e for e in (w2.log[cut + 1:] if cut is not None else []) if e[1] != w2.raised_file]
+                    if later:
+                        ctx.disagree('after kill() in a validation hook that then raises, further entries are still processed',
+                                     dict(wit, killed_and_raised_at=w2.raised_file, later_events=later[:6]))
+                w2.reset()
             # whatever happened, the object can be re-run completely
             begin(w)
             if w.is_aborted():
